@@ -232,7 +232,11 @@ int main(void)
         last_nascent = NULL;
         if (two) qthread_fork_precond(gate, (void *)cnt, NULL, 2, u, w);     /* the walk examines w first, then u */
         else qthread_fork_precond(gate, (void *)cnt, NULL, 1, w);
-        { char b[160]; int on[3], mf; audit(w, b, on, &mf); if (!on[2] || !last_nascent) { printf("ERR the precondition task is not parked on w\n"); fflush(stdout); _exit(5); } }
+        { char b[160]; int on[3], mf; audit(w, b, on, &mf);
+          if (!on[2] || !last_nascent) {                 /* not where the model has it: go on, the comparison / the oracle will speak */
+              last_nascent = NULL; audit(u, b, on, &mf);
+              if (!last_nascent) { printf("ERR the precondition task is parked on none of its words\n"); fflush(stdout); _exit(5); }
+          } }
         qthread_t *Nq = last_nascent;
         qthread_fork_to(ptask, A, NULL, 1);
         qthread_fork_to(ptask, B, NULL, 2);
